@@ -124,7 +124,7 @@ def random_ldpc(rng, count, kmax, cbs=(None,), apis=("recv", "setavail"), payloa
         payload = rng.choice(payloads)
         extra = rng.choice([0, 0, 1, 3, 8])
         length = gen.need_len(3, k, 0) + extra if payload == "id" else pick_len(rng, k + r)
-        p = P(3, k, r, N1=n1, seed=seed, length=length, payload=payload, align=rng.choice([0, 0, 1, 3, 5, 7]))
+        p = P(3, k, r, N1=n1, seed=seed, length=length, payload=payload, align=gen.pick_align(rng))
         n = p.n
         # loss rate around the decoding threshold so that both outcomes occur
         keep = rng.uniform(max(0.3, k / n - 0.25), min(1.0, k / n + 0.35))
@@ -247,12 +247,12 @@ def big_symbols(rng, count, cbs=(None,)):
         length = BIG_LENGTHS[((i // 6) * 5) % len(BIG_LENGTHS)] if rng.random() < 0.7 else rng.choice(BIG_LENGTHS)
         if c == 3:
             k = rng.randint(3, 12); r = rng.randint(4, 9)
-            p = P(3, k, r, N1=rng.randint(3, min(r, 5)), seed=rng.randint(1, 10 ** 6), length=length, payload="rnd", align=rng.choice([0, 1, 3]))
+            p = P(3, k, r, N1=rng.randint(3, min(r, 5)), seed=rng.randint(1, 10 ** 6), length=length, payload="rnd", align=gen.pick_align(rng))
             size = min(p.n, k + rng.choice([0, 1, 1, 2]))
         else:
             m = 0 if c == 1 else (4, 8)[(i // 3) % 2]
             k = rng.randint(2, 7); r = rng.randint(2, 5)
-            p = P(c, k, r, m=m, length=length, payload="rnd", align=rng.choice([0, 1, 3]))
+            p = P(c, k, r, m=m, length=length, payload="rnd", align=gen.pick_align(rng))
             size = k
         sub = rng.sample(range(p.n), size)
         api = rng.choice(["recv", "setavail"])
@@ -345,7 +345,7 @@ def random_rs(rng, count, nmax, cbs=(None,), apis=("recv", "setavail"), payloads
         k = rng.randint(1, n - 1)
         payload = rng.choice(payloads)
         length = gen.need_len(c, k, m) + rng.choice([0, 0, 1, 5, 11, 16, 23, 40]) if payload == "id" else pick_len(rng, n)
-        p = P(c, k, n - k, m=m, length=length, payload=payload, align=rng.choice([0, 0, 1, 2, 7]))
+        p = P(c, k, n - k, m=m, length=length, payload=payload, align=gen.pick_align(rng))
         cnt = rng.choice([k, k, k + 1, k + 2, max(0, k - 1), rng.randint(0, n)])
         cnt = min(cnt, n)
         sub = rng.sample(range(n), cnt)
